@@ -67,7 +67,7 @@ func listingLen(s *uichk.Session) int {
 func inProcess(c *mon.Case) {
 	uichk.Init()
 	r := c.Rng
-	s, err := uichk.NewSession(r, 2)
+	s, err := uichk.NewSessionAt(r, 2, uichk.PickBase(r))
 	if err != nil {
 		c.Count("session_build_failed", 1)
 		return
